@@ -35,7 +35,7 @@ from ..vloop import new_loop
 
 RUN = "vf.checks.c19:run_one"
 
-T0 = 1_000_000.0
+T0 = 1_000_000.25      # fractional start: with half-second steps 'now' is never a whole number of seconds
 MAX_IDS = 3
 NEVER = "never-issued-session-id"
 CLIENTS = [
@@ -57,7 +57,10 @@ def fresh_client(c: int) -> Dict[str, Any]:
 CREATE_VERSIONS = ["2025-06-18", "2025-03-26", "2024-11-05"]
 # initialize variants: (client, requested version or None = member absent)
 INIT_VARIANTS = [(0, "2025-03-26"), (1, "1999-01-01"), (2, None)]
-ADVANCES = [1, 10, 3600]
+# clock steps: binary-exact fractions, so float sums are exact.  9.5 / 3599.5 / 0.5 reach, for max_age 10 and 3600,
+# idle = max_age - 0.5 (one step), == max_age (two steps) and max_age + 0.5 (three steps); for max_age 0: idle 0 and 0.5
+ADVANCES = [0.5, 9.5, 3599.5]
+INITSID_TARGETS = (-1, 0, 1)   # initialize carrying the id of session #k (or a never-issued id); #2 cannot precede a 4th id
 MAX_AGES = [0, 10, "default"]       # "default" = cleanup_expired() without argument (documented 3600)
 LISTMUT = ["add", "del", "clear"]
 
@@ -72,6 +75,8 @@ def _ops_table() -> List[List[Any]]:
     t += [["listmut", m] for m in LISTMUT]
     t += [["clear"]]
     t += [["adv", d] for d in ADVANCES]
+    # appended last so that the codes of the older operations (replay files) stay valid
+    t += [["initsid", k, v] for k in INITSID_TARGETS for v in range(3)]
     return t
 
 
@@ -83,6 +88,9 @@ def enabled(n_issued: int) -> List[int]:
     for code, op in enumerate(OPS):
         if op[0] in ("create", "init"):
             if n_issued < MAX_IDS:
+                out.append(code)
+        elif op[0] == "initsid":
+            if n_issued < MAX_IDS and op[1] < n_issued:
                 out.append(code)
         elif op[0] in ("get", "touch", "delete", "ping"):
             if op[1] < n_issued:
@@ -97,6 +105,8 @@ def opname(op) -> str:
         return op[0] + (":never-issued-id" if op[1] < 0 else ":issued-id")
     if op[0] in ("cleanup", "listmut"):
         return f"{op[0]}:{op[1]}"
+    if op[0] == "initsid":
+        return "initialize-with-session-id" + (":never-issued-id" if op[1] < 0 else ":issued-id")
     return op[0]
 
 
@@ -278,15 +288,21 @@ async def execute(codes: List[int], seams: Seams, factory, parse_message, count)
                     sid = sm.create_session(fresh_client(c), CREATE_VERSIONS[c])
                     new_id(sid, "create_session")
                     model.add(CLIENTS[c], CREATE_VERSIONS[c])
-                elif kind == "init":
-                    c, ver = INIT_VARIANTS[op[1]]
+                elif kind in ("init", "initsid"):
+                    c, ver = INIT_VARIANTS[op[1] if kind == "init" else op[2]]
+                    carried = None if kind == "init" else real_id(op[1])
                     params: Dict[str, Any] = {"capabilities": {}, "clientInfo": fresh_client(c)}
                     if ver is not None:
                         params["protocolVersion"] = ver
                     wire = {"jsonrpc": "2.0", "id": 11, "method": "initialize", "params": params}
-                    ret = await handler.handle_message(parse_message(wire), None)
+                    ret = await handler.handle_message(parse_message(wire), carried)
                     if not (isinstance(ret, tuple) and len(ret) == 2 and ret[0] is not None):
                         bad({"class": "wrong-return", "op": name}, f"initialize returned {ret!r}")
+                    if kind == "initsid" and op[1] in model.s:
+                        # dispatch with a live session id may count as activity of THAT session (both accepted)
+                        cur = sm.get_session(ids[op[1]])
+                        if cur is not None and cur.last_activity == model.now and cur.created_at == model.s[op[1]][2]:
+                            model.s[op[1]][3] = model.now
                     d = ret[0].model_dump(exclude_none=True)
                     rk, why = classify(d)
                     if rk not in ("result", "error") or not strict_eq(d.get("id"), 11):
@@ -295,7 +311,7 @@ async def execute(codes: List[int], seams: Seams, factory, parse_message, count)
                         count("initialize-error:history-not-continued")
                         return {"viol": viol, "cut": "initialize-error"}
                     answered = ret[0].result.get("protocolVersion") if isinstance(ret[0].result, dict) else None
-                    new_id(ret[1], "initialize")
+                    new_id(ret[1], "initialize" if kind == "init" else name)
                     model.add(CLIENTS[c], answered)
                 elif kind == "get":
                     k = op[1]
@@ -352,7 +368,11 @@ async def execute(codes: List[int], seams: Seams, factory, parse_message, count)
                     disc = []
                     for i, r in sorted(model.s.items()):
                         idle = model.now - r[3]
-                        rel = "idle>max_age" if idle > limit else "idle==max_age" if idle == limit else "idle<max_age"
+                        diff = idle - limit
+                        rel = ("idle==max_age" if diff == 0 else "idle=max_age+fraction" if 0 < diff < 1 else
+                               "idle=max_age-fraction" if -1 < diff < 0 else "idle>max_age" if diff > 0 else "idle<max_age")
+                        if step_no == len(hist) - 1:
+                            count(f"expiry-case:max_age={a}:{rel}")
                         removed = ids[i] not in real_left
                         if removed != (i in gone):
                             disc.append(("removed:" if removed else "kept:") + rel)
@@ -395,7 +415,7 @@ async def execute(codes: List[int], seams: Seams, factory, parse_message, count)
                 check_view(name)
     except Stop:
         return {"viol": viol, "cut": "violation"}
-    if clock.calls == 0 and any(o[0] in ("create", "init") for o in hist):
+    if clock.calls == 0 and any(o[0] in ("create", "init", "initsid") for o in hist):
         raise core.HarnessError("seam missing: the session store did not read chuk_mcp.server.session.memory.time")
     # canonical real observable (richer than the model key: it is what histories must agree on)
     listing = sm.list_sessions()
@@ -630,7 +650,7 @@ def bfs(res: core.Result, depth: int) -> Dict[str, Any]:
 
 def run(tier: str, only=None) -> core.Result:
     res = core.Result("C19", "model_checking")
-    depth = 5 if tier == "quick" else 8
+    depth = 5 if tier == "quick" else 7
     if only:
         try:
             depth = int(only)
@@ -657,13 +677,29 @@ def run(tier: str, only=None) -> core.Result:
     cov["all_histories_reaching_a_shared_state_agree"] = r["disagreements"] == 0 and not res.violations
     cov["unexpanded_states_at_max_depth"] = r["last_frontier"]
     cov["operations"] = len(OPS)
+    # which expiry boundary relations were exercised (cleanup as the last operation of an execution), per max_age
+    exp: Dict[str, int] = {}
+    for p in res.parts.values():
+        for k, n in p.get("counters", {}).items():
+            if k.startswith("expiry-case:"):
+                exp[k[len("expiry-case:"):]] = exp.get(k[len("expiry-case:"):], 0) + n
+    cov["expiry_boundary_cases"] = dict(sorted(exp.items()))
+    if depth >= 5 and not res.harness_errors:
+        need = [f"max_age={a}:{r}" for a in (10, "default") for r in
+                ("idle=max_age-fraction", "idle==max_age", "idle=max_age+fraction")] + \
+               ["max_age=0:idle==max_age", "max_age=0:idle=max_age+fraction"]
+        missing = [n for n in need if not exp.get(n)]
+        if missing:
+            res.harness_errors.append(f"expiry boundary cases never reached: {missing}")
     cov["exhaustive"] = True
     cov["samples"] = r["samples"]
     cov["rule"] = (
         f"breadth-first over all operation histories of length <= {depth} over {len(OPS)} operations {{create(c) x3, "
-        "initialize via handle_message (supported / unsupported / absent version) x3, get/update_activity/delete/"
+        "initialize via handle_message (supported / unsupported / absent version) x3 without session id and x9 carrying the id "
+        "of session #0 / #1 / a never-issued id, get/update_activity/delete/"
         "ping-with-session-id over every issued id and a never-issued one, cleanup_expired(0 | 10 | default), "
-        "list_sessions + mutate the returned dict (add | delete | clear), clear_all_sessions, advance clock by 1 | 10 | 3600}}, "
+        "list_sessions + mutate the returned dict (add | delete | clear), clear_all_sessions, advance the (fractional) clock "
+        "by 0.5 | 9.5 | 3599.5 from a start at x.25}}, "
         f"at most {MAX_IDS} ids issued per history; every history+op is one fresh execution on the real ProtocolHandler/"
         "SessionManager compared step by step with a dict model; state = (ids issued, sorted (issue index, client info, "
         "version, age since creation, idle time)); a state is extended once, by the first history (BFS order) that reaches it; "
@@ -674,8 +710,9 @@ def run(tier: str, only=None) -> core.Result:
         "the id's characters or the absolute clock value (expiry is specified on now - last_activity only)",
         "uuid.uuid4 and the session module's time are the only sources of ids / time (stubbed; the check fails as a harness "
         "error if the clock stub is never read)",
-        "whether dispatching a request with a known session id refreshes last_activity is not stated: both are accepted "
-        "(counted); with an unknown id it must not create a session",
+        "whether dispatching a request (ping, or a second initialize) with a known session id refreshes that session's "
+        "last_activity is not stated: both are accepted (counted); with an unknown id it must not create a session; "
+        "an initialize carrying a session id must still create exactly one NEW session and leave the carried one's record alone",
         "which protocolVersion initialize answers is C04's subject: the model records the answered version",
         "an initialize answered with an error ends the history unjudged (does not occur on this tree unless counted)",
         "mutating the *records* inside a listing is not covered (the statement speaks of adding/removing entries)",
